@@ -171,6 +171,77 @@ end
 def unshred (s : Schema) (sl : Slot) : Option Value := (unshredR s sl).orNull
 
 
+/-! ### the parquet leaf value of a typed_value column -/
+
+/-- a parquet leaf value, by physical type -/
+inductive ColVal
+  | bool (b : Bool)
+  | i32 (x : BitVec 32)
+  | i64 (x : BitVec 64)
+  | f32 (x : BitVec 32)
+  | f64 (x : BitVec 64)
+  | bytes (b : Bytes)
+  deriving DecidableEq
+
+/-- MIRROR variant_shredded_write.go:212-313 `variantToParquetValue`: the leaf value written for a
+    primitive that matches the column type (`none` = no match, falls back to `value`). int8/int16
+    are widened to INT32, decimal16 is turned from little to big endian (315-322). -/
+def toCol : PType → Prim → Option ColVal
+  | .bool, .bool b => some (.bool b)
+  | .int8, .int8 x => some (.i32 (x.signExtend 32))
+  | .int16, .int16 x => some (.i32 (x.signExtend 32))
+  | .int32, .int32 x => some (.i32 x)
+  | .int64, .int64 x => some (.i64 x)
+  | .float, .float x => some (.f32 x)
+  | .double, .double x => some (.f64 x)
+  | .string, .string s => some (.bytes s)
+  | .binary, .binary b => some (.bytes b)
+  | .date, .date x => some (.i32 x)
+  | .uuid, .uuid x => some (.bytes (beN 16 x.toNat))
+  | .ts, .ts x => some (.i64 x)
+  | .tsNtz, .tsNtz x => some (.i64 x)
+  | .tsNanos, .tsNanos x => some (.i64 x)
+  | .tsNtzNanos, .tsNtzNanos x => some (.i64 x)
+  | .time, .time x => some (.i64 x)
+  | .dec4 p s, .dec4 sc x => if s = sc.toNat && fitsPrec 19 p x.toInt then some (.i32 x) else none
+  | .dec8 p s, .dec8 sc x => if s = sc.toNat && fitsPrec 19 p x.toInt then some (.i64 x) else none
+  | .dec16 p s, .dec16 sc x =>
+    if s = sc.toNat && fitsPrec 39 p x.toInt then some (.bytes (beN 16 x.toNat)) else none
+  | _, _ => none
+
+/-- MIRROR variant_shredded_read.go:551-562 `bigEndianToLittleEndian16`: a big-endian two's
+    complement integer of up to 16 bytes, sign-extended to 16 little-endian bytes. -/
+def be16ToNat (b : Bytes) : Nat :=
+  let fill : UInt8 := match b with
+    | b0 :: _ => if b0 ≥ 0x80 then 0xFF else 0
+    | [] => 0
+  unLE (b.reverse ++ List.replicate (16 - b.length) fill)
+
+/-- MIRROR variant_shredded_read.go:467-546 `parquetToVariantValue`: the variant primitive a leaf
+    value of a typed_value column stands for. -/
+def ofCol : PType → ColVal → Option Prim
+  | .bool, .bool b => some (.bool b)
+  | .int8, .i32 x => some (.int8 (x.setWidth 8))
+  | .int16, .i32 x => some (.int16 (x.setWidth 16))
+  | .int32, .i32 x => some (.int32 x)
+  | .int64, .i64 x => some (.int64 x)
+  | .float, .f32 x => some (.float x)
+  | .double, .f64 x => some (.double x)
+  | .string, .bytes s => some (.string s)
+  | .binary, .bytes b => some (.binary b)
+  | .date, .i32 x => some (.date x)
+  | .uuid, .bytes b => if b.length = 16 then some (.uuid (BitVec.ofNat 128 (unLE b.reverse))) else none
+  | .ts, .i64 x => some (.ts x)
+  | .tsNtz, .i64 x => some (.tsNtz x)
+  | .tsNanos, .i64 x => some (.tsNanos x)
+  | .tsNtzNanos, .i64 x => some (.tsNtzNanos x)
+  | .time, .i64 x => some (.time x)
+  | .dec4 _ s, .i32 x => some (.dec4 (UInt8.ofNat s) x)
+  | .dec8 _ s, .i64 x => some (.dec8 (UInt8.ofNat s) x)
+  | .dec16 _ s, .bytes b =>
+    if b.length ≤ 16 then some (.dec16 (UInt8.ofNat s) (BitVec.ofNat 128 (be16ToNat b))) else none
+  | _, _ => none
+
 /-! ### hypotheses of the round-trip theorem -/
 
 mutual
